@@ -76,7 +76,7 @@ def run(chk):
     from elementpath import datatypes as dt
     rng = chk.rng
     quick = chk.tier == 'quick'
-    chk.trusted += ['harness whitespace collapse (XSD whiteSpace=collapse) applied before the Coq recognizers',
+    chk.trusted += ['harness whitespace collapse (XSD whiteSpace=collapse) applied before the Coq recognizers in sections 1-6 (section 7 runs C10/Whitespace.v collapse inside the model)',
                     'Gen/C10Tables.v: bounds dumped from the classes (T-data)',
                     "CPython's codecs / base64 / int() / float() / Decimal are externals reached through the constructors",
                     'PARTIAL: QName, URI and string-derived lexical spaces: agreement of the cast paths only (date / time / duration lexical spaces: C10/DateLex.v)']
@@ -341,6 +341,8 @@ def run(chk):
     # ---------------- 6. lexical spaces of the date / time / duration types against the recognisers of C10/DateLex.v, in both
     #                    XSD year numberings: class.fromstring, is_valid, xs:T(), cast as, castable as, xs:T(untypedAtomic)
     date_lexical_section(chk, rng, quick, model_ok)
+    # ---------------- 7. the whiteSpace facet: only #x20 #x9 #xA #xD are white space (C10/Whitespace.v collapse, then the recogniser)
+    whitespace_section(chk, rng, quick, model_ok)
     # ---- the casting table (F&O 19.1) over 21 source x 21 target types: castable as / cast as / constructor function
     CT = ['untypedAtomic', 'string', 'float', 'double', 'decimal', 'integer', 'duration', 'yearMonthDuration', 'dayTimeDuration', 'dateTime',
           'time', 'date', 'gYearMonth', 'gYear', 'gMonthDay', 'gDay', 'gMonth', 'boolean', 'base64Binary', 'hexBinary', 'anyURI']
@@ -583,6 +585,58 @@ def date_lexical_section(chk, rng, quick, model_ok):
                 chk.violation('impl-vs-spec', desc | {'path': label}, {'succeeds': ok, 'in the lexical space': want})
         if want:
             chk.nontrivial.add(repr(('datelex', name, v11, s1)))
+
+
+def whitespace_section(chk, rng, quick, model_ok):
+    from elementpath import select, ElementPathError
+    from elementpath.xpath31 import XPath31Parser
+    chk.prove(['theories/C10/Model.v', 'theories/C10/Whitespace.v', 'theories/C10/WhitespaceProofs.v'], 'theories/C10/WhitespaceProperties.v')
+    XML_WS = ' \t\n\r'
+    OTHER_WS = ['\u3000', '\xa0', '\x0c', '\x0b', '\x1c', '\x1f', '\x85', '\u2003', '\u2028', '\u2029', '\u200b', '\ufeff', '\u1680', '\u202f']
+    # (type, valid lexical form, model kind for run_ws or None when the type has no recogniser)
+    TYPES = [('integer', '12', 0), ('decimal', '1.5', 1), ('boolean', 'true', 2), ('boolean', '0', 2), ('double', '1e0', 3), ('float', '-INF', 3),
+             ('hexBinary', '0A', 5), ('base64Binary', 'Cg==', 6), ('date', '2000-01-01', 100), ('dateTime', '2000-01-01T00:00:00Z', 101),
+             ('time', '12:00:00', 102), ('gYear', '2000', 103), ('gYearMonth', '2000-01', 104), ('gMonth', '--01', 105), ('gDay', '---01', 106),
+             ('gMonthDay', '--01-01', 107), ('duration', 'P1D', 108), ('dayTimeDuration', 'PT1S', 109), ('yearMonthDuration', 'P1Y', 110),
+             ('language', 'en', None), ('NCName', 'a', None), ('Name', 'a:b', None), ('NMTOKEN', '1a', None), ('ID', 'a', None),
+             ('byte', '1', None), ('unsignedInt', '1', None), ('positiveInteger', '1', None), ('long', '-1', None)]
+    cases = []
+    for t, v, k in TYPES:
+        for w in list(XML_WS) + OTHER_WS + [' \t', '\r\n ', ' \u3000', '\xa0 ']:
+            for raw in (w + v, v + w, w + v + w):
+                cases.append((t, v, k, w, raw))
+        mid = len(v) // 2
+        for w in (' ', '\t', '\u3000'):          # white space inside the lexical form is never dropped
+            cases.append((t, v, k, w, v[:mid] + w + v[mid:]))
+    idx = [i for i, c in enumerate(cases) if c[2] is not None]
+    model = dict(zip(idx, core.run_coq_cases('C10', IMPORTS, [f'run_ws {cases[i][2]} {zs(cases[i][4])}' for i in idx], chunk=500, tag='ws',
+                                             preamble='Open Scope Z_scope.'))) if model_ok else {}
+    for i, (t, v, k, w, raw) in enumerate(cases):
+        chk.evaluations += 1
+        chk.count('whitespace:' + t)
+        inner = not (raw.startswith(w) or raw.endswith(w))
+        if i in model:
+            want = bool(model[i])
+        elif inner:
+            want = None                      # no recogniser for the type: only the edge positions are judged
+        else:
+            want = all(c in XML_WS for c in w)
+        if want is None:
+            continue
+        desc = {'type': 'xs:' + t, 'string': ascii(raw)}
+        for label, expr in (('castable', f'$s castable as xs:{t}'), ('constructor', f'xs:{t}($s)'), ('cast', f'$s cast as xs:{t}'),
+                            ('untyped', f'xs:{t}(xs:untypedAtomic($s))')):
+            try:
+                r = select(None, expr, variables={'s': raw}, parser=XPath31Parser, item=1)
+                ok = (r is True) if label == 'castable' else True
+            except ElementPathError:
+                ok = False
+            except Exception as e:
+                chk.violation('foreign-exception', desc | {'path': label}, repr(e)[:200])
+                continue
+            if ok != want:
+                chk.violation('impl-vs-spec', desc | {'path': label}, {'succeeds': ok, 'in the lexical space after whiteSpace collapse': want})
+        chk.nontrivial.add(repr(('ws', t, raw)))
 
 
 _LEX_ROOT = []
